@@ -15,6 +15,7 @@ import (
 	"seehuhn.de/go/sfnt/cmap"
 	"seehuhn.de/go/sfnt/glyph"
 	"seehuhn.de/go/sfnt/opentype/gtab"
+	"verif/harness/fontcmp"
 	genfont "verif/harness/gen/font"
 	"verif/harness/gen/lookups"
 	"verif/harness/guard"
@@ -91,7 +92,11 @@ func TestC07Layouter(t *testing.T) {
 			}
 		}
 		dump := func() string {
-			return fmt.Sprintf("%s\ncmap: a.. -> %v\nGSUB: %s\nGPOS: %v\nGDEF: %v", c, alpha, describe(f.Gsub.LookupList, f.Gdef, nil), f.Gpos != nil, f.Gdef != nil)
+			gp := "none"
+			if f.Gpos != nil {
+				gp = describe(f.Gpos.LookupList, nil, nil) + fontcmp.Dump(f.Gpos.FeatureList)
+			}
+			return fmt.Sprintf("%s\ncmap: a.. -> %v\nGSUB: %s%s\nGPOS: %s\nGDEF: %v", c, alpha, describe(f.Gsub.LookupList, f.Gdef, nil), fontcmp.Dump(f.Gsub.FeatureList), gp, f.Gdef != nil)
 		}
 		genText := func(lab string) string {
 			k := rapid.OneOf(rapid.IntRange(0, 6), rapid.IntRange(0, 40)).Draw(t, lab+"Len")
@@ -157,12 +162,23 @@ func TestC07Layouter(t *testing.T) {
 			if pn := guard.Try(func() { g, err = sfnt.Read(bytes.NewReader(buf.Bytes())) }); pn == nil && err == nil {
 				// only comparable when the tables survived unchanged (wild
 				// tables need not be encodable one-to-one: C08's domain)
-				if describe(g.Gsub.LookupList, nil, nil) == describe(f.Gsub.LookupList, nil, nil) &&
-					(f.Gpos == nil) == (g.Gpos == nil) && (f.Gpos == nil || describe(g.Gpos.LookupList, nil, nil) == describe(f.Gpos.LookupList, nil, nil)) &&
-					fmt.Sprint(g.Gdef) == fmt.Sprint(f.Gdef) {
+				same := fontcmp.DeepDiff("Gsub", f.Gsub.LookupList, g.Gsub.LookupList) == "" && fontcmp.DeepDiff("Gdef", f.Gdef, g.Gdef) == "" &&
+					(f.Gpos == nil) == (g.Gpos == nil) && (f.Gpos == nil || fontcmp.DeepDiff("Gpos", f.Gpos.LookupList, g.Gpos.LookupList) == "")
+				if same {
 					again := layout(newLayouter(g, "read back"), probe, "font read back")
 					if again != fresh {
-						t.Fatalf("Layout(%q) differs for the font read back from its own file:\n  original:  %s\n  read back: %s\n%s", probe, fresh, again, dump())
+						sel := func(h *sfnt.Font) string {
+							res := fmt.Sprint("gsub ", h.Gsub.FindLookups(language.English, features))
+							if h.Gpos != nil {
+								res += fmt.Sprint(" gpos ", h.Gpos.FindLookups(language.English, features), " scripts ", scriptTags(h.Gpos))
+							}
+							return res
+						}
+						dd := fontcmp.DeepDiff("Gsub.LookupList", f.Gsub.LookupList, g.Gsub.LookupList) + fontcmp.DeepDiff("Gdef", f.Gdef, g.Gdef)
+						if f.Gpos != nil {
+							dd += fontcmp.DeepDiff("Gpos.LookupList", f.Gpos.LookupList, g.Gpos.LookupList)
+						}
+						t.Fatalf("Layout(%q) differs for the font read back from its own file:\n  original:  %s\n  read back: %s\n  selected lookups: original %s, read back %s\n  structural difference: %q\n%s", probe, fresh, again, sel(f), sel(g), dd, dump())
 					}
 					readBack = true
 				}
